@@ -115,6 +115,8 @@ pub fn library() -> Vec<Decl> {
         Decl { name: "Fun2", params: 3, codata: true, xtors: vec![("apply2", vec![P(0), P(1)], Some(P(2)))] },
         Decl { name: "Stream", params: 1, codata: true, xtors: vec![("head", vec![], Some(P(0))), ("tail", vec![], Some(D("Stream", vec![P(0)])))] },
         Decl { name: "LPair", params: 2, codata: true, xtors: vec![("lfst", vec![], Some(P(0))), ("lsnd", vec![], Some(P(1)))] },
+        // a codata type whose destructor takes a value of the type itself (`f.app(f, n)`)
+        Decl { name: "Rec", params: 0, codata: true, xtors: vec![("app", vec![D("Rec", vec![]), I], Some(I))] },
         // destructors with covariable parameters (trailing and leading)
         Decl { name: "Handler", params: 1, codata: true, xtors: vec![("handle", vec![P(0), K], Some(I)), ("pass", vec![K, I, P(0)], Some(P(0)))] },
     ]
@@ -225,6 +227,9 @@ pub struct G<'a> {
     /// element types used for instantiation
     elems: Vec<T>,
     cur_def: usize,
+    /// > 0 while the body of a clause of the self-referential codata type `Rec` is generated: no
+    /// `app` invocations and no calls that take a `Rec` there (termination)
+    in_rec: usize,
 }
 
 const BIG_LITS: [i64; 16] = [
@@ -340,6 +345,11 @@ impl<'a> G<'a> {
                     }
                 }
                 if k < 92 {
+                    if self.rng.pct(40) {
+                        if let Some(e) = self.dtor_on_call(t, sc, depth, true) {
+                            return e;
+                        }
+                    }
                     // destructor of a codata variable returning i64
                     if let Some(e) = self.dtor_on_var(t, sc, depth, false) {
                         return e;
@@ -365,7 +375,17 @@ impl<'a> G<'a> {
                     return E::Var(*self.rng.pick(&vars));
                 }
                 if d.codata {
+                    // a quarter of the codata values come out of a definition
+                    if !small && self.rng.pct(25) {
+                        if let Some(e) = self.call(t, sc, depth, true) {
+                            return e;
+                        }
+                    }
                     let mut clauses = Vec::new();
+                    let rec = d.name == "Rec";
+                    if rec {
+                        self.in_rec += 1;
+                    }
                     for (xn, xargs, ret) in &d.xtors {
                         let mut sc2 = Scope { vars: sc.vars.clone() };
                         let mut ids = Vec::new();
@@ -406,6 +426,9 @@ impl<'a> G<'a> {
                             self.pure(&rt, &sc2, depth + 1)
                         };
                         clauses.push((xn.to_string(), ids, body));
+                    }
+                    if rec {
+                        self.in_rec -= 1;
                     }
                     return E::New(clauses);
                 }
@@ -514,7 +537,7 @@ impl<'a> G<'a> {
             }
             if let T::D(n, args) = vt {
                 let d = self.decl(n);
-                if d.codata {
+                if d.codata && !(self.in_rec > 0 && d.name == "Rec") {
                     for (xn, xargs, ret) in &d.xtors {
                         let needs_label = xargs.iter().any(|a| matches!(a, TT::K));
                         if inst(ret.as_ref().unwrap(), args) == *t && (!needs_label || have_label) {
@@ -543,12 +566,40 @@ impl<'a> G<'a> {
         Some(E::Dtor(Box::new(E::Var(v)), vt, xn, es))
     }
 
+    /// a destructor applied directly to the codata result of a call: `idf(g).apply[..](3)`
+    fn dtor_on_call(&mut self, t: &T, sc: &Scope, depth: usize, pure_only: bool) -> Option<E> {
+        let mut cands: Vec<(T, String, Vec<T>)> = Vec::new();
+        for (i, sg) in self.sigs.iter().enumerate() {
+            if i <= self.cur_def || pure_only && !sg.pure {
+                continue;
+            }
+            if let T::D(n, args) = &sg.ret {
+                let d = self.decl(n);
+                if d.codata && !(self.in_rec > 0 && d.name == "Rec") {
+                    for (xn, xargs, ret) in &d.xtors {
+                        if xargs.iter().all(|a| !matches!(a, TT::K)) && inst(ret.as_ref().unwrap(), args) == *t {
+                            cands.push((sg.ret.clone(), xn.to_string(), xargs.iter().map(|a| inst(a, args)).collect()));
+                        }
+                    }
+                }
+            }
+        }
+        if cands.is_empty() {
+            return None;
+        }
+        let (rt, xn, ats) = cands[self.rng.below(cands.len())].clone();
+        let callee = self.call(&rt, sc, depth + 1, pure_only)?;
+        let es = ats.iter().map(|a| self.pure(a, sc, depth + 1)).collect();
+        Some(E::Dtor(Box::new(callee), rt, xn, es))
+    }
+
     fn call(&mut self, t: &T, sc: &Scope, depth: usize, pure_only: bool) -> Option<E> {
         let cands: Vec<usize> = self
             .sigs
             .iter()
             .enumerate()
             .filter(|(i, s)| *i > self.cur_def && s.ret == *t && (!pure_only || s.pure))
+            .filter(|(_, s)| self.in_rec == 0 || s.params.iter().all(|(_, pt, _)| !matches!(pt, T::D(n, _) if n == "Rec")))
             .filter(|(_, s)| s.params.iter().all(|(_, _, cv)| !*cv || sc.vars.iter().any(|(_, vt, c)| *c && *vt == T::I)))
             .map(|(i, _)| i)
             .collect();
@@ -720,6 +771,11 @@ impl<'a> G<'a> {
         }
         if k < 58 {
             if self.rng.pct(25) {
+                if self.rng.pct(40) {
+                    if let Some(e) = self.dtor_on_call(t, sc, depth, false) {
+                        return e;
+                    }
+                }
                 if let Some(e) = self.dtor_on_var(t, sc, depth, true) {
                     return e;
                 }
@@ -762,7 +818,14 @@ impl<'a> G<'a> {
         }
         // recursion on a decreasing counter (first parameter)
         let n = sig.params[0].0;
-        let base = if sig.pure { self.pure(&sig.ret, &sc, 3) } else { self.eff(&sig.ret, &sc, 4) };
+        let same: Vec<usize> = sig.params.iter().filter(|(_, pt, cv)| !*cv && *pt == sig.ret).map(|(i, _, _)| *i).collect();
+        let base = if self.is_codata(&sig.ret) && !same.is_empty() && self.rng.pct(70) {
+            E::Var(*self.rng.pick(&same))
+        } else if sig.pure {
+            self.pure(&sig.ret, &sc, 3)
+        } else {
+            self.eff(&sig.ret, &sc, 4)
+        };
         let step = {
             // bind m = n - 1 and allow recursive calls through `call` by temporarily shadowing literals:
             // here: one explicit recursive call with n - 1 embedded in a small context
@@ -1114,7 +1177,7 @@ fn size(e: &E) -> usize {
 
 pub fn generate(rng: &mut Rng, cfg: &FunCfg) -> FunProg {
     let lib = library();
-    let mut g = G { rng, cfg: cfg.clone(), lib, next_id: 0, budget: cfg.size as isize, sigs: Vec::new(), elems: vec![T::I], cur_def: 0 };
+    let mut g = G { rng, cfg: cfg.clone(), lib, next_id: 0, budget: cfg.size as isize, sigs: Vec::new(), elems: vec![T::I], cur_def: 0, in_rec: 0 };
     let pool = [T::D("List".into(), vec![T::I]), T::D("Pair".into(), vec![T::I, T::I]), T::D("Opt".into(), vec![T::I]), T::D("Color".into(), vec![])];
     for _ in 1..cfg.type_instances {
         let t = pool[g.rng.below(pool.len())].clone();
@@ -1152,7 +1215,15 @@ pub fn generate(rng: &mut Rng, cfg: &FunCfg) -> FunProg {
         if !pure && g.rng.pct(cfg.label_pct) {
             params.push((g.fresh(), T::I, true));
         }
-        let ret = if g.rng.pct(65) { T::I } else { g.random_type(false, 0) };
+        // (a fifth of the non-integer results are codata: `def idf(g: Fun[..]): Fun[..] { g }`)
+        let mut ret = if g.rng.pct(65) { T::I } else { let cd = g.rng.pct(50); g.random_type(cd, 0) };
+        if g.is_codata(&ret) {
+            // a definition that can hand one of its codata parameters back as it is
+            if g.rng.pct(60) {
+                ret = T::D("Fun".into(), vec![T::I, T::I]);
+            }
+            params.insert(1, (g.fresh(), ret.clone(), false));
+        }
         sigs.push(DefSig { name: format!("{}{}", def_names[i % def_names.len()], i), params, ret, pure });
     }
     g.sigs = sigs.clone();
